@@ -8,6 +8,25 @@ def blist(b):
 
 def emit(w, src, must):
     emit_codes(w, src, must)
+    emit_timers(w, src, must)
+
+
+def emit_timers(w, src, must):
+    t = src("crates/sip-ua/src/invite/timer.rs")
+    subs = re.findall(r"saturating_sub\((\d+)\)", t)
+    adds = re.findall(r"saturating_add\((\d+)\)", t)
+    must(len(subs) == 2 and len(adds) == 2 and len(set(subs + adds)) == 1, "session timer margins (two saturating_sub / two saturating_add with one value) in invite/timer.rs")
+    w("(* session-timer safety margin (seconds) and the acceptor's default interval, sip-ua/src/invite/timer.rs *)")
+    w("Definition se_margin_s : N := %s." % subs[0])
+    m = must(re.search(r"interval_secs: (\d+),", t), "default session interval")
+    w("Definition se_default_interval_s : N := %s." % m.group(1))
+    r = src("crates/sip-ua/src/register/mod.rs")
+    m1 = must(re.search(r"period\.max\(Duration::from_secs\((\d+)\)\)", r), "register minimum period")
+    m2 = must(re.search(r"period - Duration::from_secs\((\d+)\)", r), "register margin")
+    w("(* registration refresh: period = max(lifetime, reg_min_s) - reg_margin_s, sip-ua/src/register/mod.rs *)")
+    w("Definition reg_min_s : N := %s." % m1.group(1))
+    w("Definition reg_margin_s : N := %s." % m2.group(1))
+    w("")
 
 
 def emit_codes(w, src, must):
